@@ -499,6 +499,52 @@ func c20units(tier string) []mc.Unit {
 		}
 		r.Bound("read-file", "uniprot.Read on 5 gzip files (intact, cut inside the first / second entry, cut between entries, mismatched end tag), documented consumer, all interleavings")
 	}})
+	// entries that repeat or resemble their neighbours: the same entry k times, neighbours sharing the accession and
+	// differing in the sequence, neighbours identical but for the name: exactly the k entry elements come back
+	us = append(us, mc.Unit{Name: "repeated-entries", Serial: true, Weight: 20, Run: func(r *mc.Recorder) {
+		var cnt int64
+		base := c20entries(3)
+		var lists [][]c20entry
+		for k := 2; k <= 5; k++ {
+			var same []c20entry
+			for i := 0; i < k; i++ {
+				same = append(same, base[0])
+			}
+			lists = append(lists, same)
+		}
+		alt := base[0]
+		alt.seq = "MKVLAAAA"
+		alt2 := base[0]
+		alt2.names = []string{"OTHER_NAME"}
+		lists = append(lists, []c20entry{base[0], alt, base[0]}, []c20entry{base[0], alt2}, []c20entry{base[1], base[0], base[0], base[2], base[2]},
+			[]c20entry{alt, alt2, base[0], alt}, []c20entry{base[2], base[1], base[0]})
+		for li, es := range lists {
+			doc := string(c20doc(es))
+			entries, errs := make(chan uniprot.Entry, 10), make(chan error, 10)
+			go uniprot.Parse(strings.NewReader(doc), entries, errs)
+			var got []uniprot.Entry
+			for e := range entries {
+				got = append(got, e)
+			}
+			nerr := 0
+			for range errs {
+				nerr++
+			}
+			cnt++
+			ok := nerr == 0 && len(got) == len(es)
+			for i := 0; ok && i < len(es); i++ {
+				ok = c20same(got[i], es[i])
+			}
+			if !ok {
+				r.Failf("entries", fmt.Sprintf("well-formed document %d with %d entries that repeat or resemble their neighbours", li, len(es)), []string{"repeated"}, fmt.Sprintf("%d entries in order, no error", len(es)), fmt.Sprint(c20show(got), " errors=", nerr))
+			}
+		}
+		r.Eval(cnt)
+		r.AddStates(cnt)
+		r.AddTransitions(cnt)
+		r.AddNontrivial(cnt)
+		r.Bound("repeated-entries", "9 documents: one entry repeated 2..5 times; neighbours equal in accession and differing in sequence or name; mixed orders")
+	}})
 	// every calendar day of eight years (century and leap-year boundaries) as the created, modified and
 	// sequence-modified date of the first of two entries: both entries are delivered complete, no error
 	us = append(us, mc.Unit{Name: "dates", Serial: true, Weight: 60, Run: func(r *mc.Recorder) {
